@@ -3,6 +3,7 @@ import Poly.Util.Proto
 import Poly.Model.BtcMerkle
 import Poly.Model.Merkle
 import Poly.Model.MerkleLedger
+import Poly.Model.MerkleArray
 /- Driver for the Merkle families. `drv_merkle <family>` reads op lines on stdin. -/
 open Poly
 
@@ -39,33 +40,42 @@ def res {α : Type} (f : α → String) : Except Err α → String
 
 def showNats (l : List Nat) : String := if l.isEmpty then "-" else ",".intercalate (l.map toString)
 
-/-! ### mtree: compact tree + hash store (C06) -/
+/-! ### mtree: compact tree + hash store (C06)
 
-def mtreeInit : State := ⟨emptyTree, none⟩
+The store is the array-backed `AStore` (`Poly/Model/MerkleArray.lean`), proved to read and write exactly as
+the list-backed `HashStore` of the model (`Poly/Proofs/MerkleArray.lean`, audited through Props/C06). -/
+open Poly.Model.MerkleArray in
+structure MT where
+  tree : CompactTree
+  store : Option AStore
 
-def allStore (st : HashStore) : List Hash := st.hashes ++ st.tail
+open Poly.Model.MerkleArray in
+def mtreeInit : MT := ⟨emptyTree, none⟩
 
-def mtreeStep (s : State) (toks : List String) : State × String :=
+open Poly.Model.MerkleArray in
+def mtreeStep (s : MT) (toks : List String) : MT × String :=
+  let rd : Option Reader := s.store.map AStore.reader
   match toks with
   | ["new", kind] =>
-    let store : Option HashStore :=
-      if kind == "mem" then some ⟨false, [], []⟩ else if kind == "file" then some ⟨true, [], []⟩ else none
+    let store : Option AStore :=
+      if kind == "mem" then some ⟨false, #[], 0⟩ else if kind == "file" then some ⟨true, #[], 0⟩ else none
     (⟨emptyTree, store⟩, "ok")
   | ["append", d] =>
     match Hex.ofHex d with
     | none => (s, "bad-op")
     | some data =>
-      match s.append Hf data with
+      match appendLeaf Hf s.tree data with
       | .error e => (s, e.name)
-      | .ok (s', audit) => (s', s!"{s'.tree.size} {res Hex.toHex (root Hf s'.tree)} {showList audit}")
+      | .ok (t, st, audit) =>
+        (⟨t, s.store.map (·.put st)⟩, s!"{t.size} {res Hex.toHex (root Hf t)} {showList audit}")
   | ["state"] =>
-    (s, s!"{s.tree.size} {showList s.tree.hashes} " ++ (match s.store with | none => "nil" | some st => toString (allStore st).length))
+    (s, s!"{s.tree.size} {showList s.tree.hashes} " ++ (match s.store with | none => "nil" | some st => toString st.arr.size))
   | ["store", i] => match s.store with
     | none => (s, "nil")
-    | some st => (s, res Hex.toHex (getHash1 st (Proto.natOf i + 1)))
+    | some st => (s, res Hex.toHex (st.reader (Proto.natOf i + 1)))
   | ["storeall"] => match s.store with
     | none => (s, "nil")
-    | some st => (s, showList (allStore st))
+    | some st => (s, showList st.arr.toList)
   | ["root"] => (s, res Hex.toHex (root Hf s.tree))
   | ["predict1", h] => match Hex.ofHex h with
     | none => (s, "bad-op")
@@ -88,23 +98,22 @@ def mtreeStep (s : State) (toks : List String) : State × String :=
     | none => (s, "nil")
     | some st =>
       if !st.isFile then (s, "mem") else
-      let file := allStore st
-      let file := if keep == "all" then file else file.take (Proto.natOf keep)
-      match reopenFile file s.tree.size with
+      match st.reopen (if keep == "all" then none else some (Proto.natOf keep)) s.tree.size with
       | none => (⟨s.tree, none⟩, "nostore")
       | some st' => (⟨s.tree, some st'⟩, "ok")
-  | ["incl", m, n] => (s, res showList (inclusionProof Hf s (Proto.natOf m) (Proto.natOf n)))
+  | ["resume", _] => (s, "ok")     -- harness-side: oracles switched on again after a crash scenario
+  | ["incl", m, n] => (s, res showList (inclusionProofR Hf s.tree.size rd (Proto.natOf m) (Proto.natOf n)))
   | ["cons", m, n] => (s, res (fun o => match o with | none => "nil" | some p => showList p)
-      (consistencyProof Hf s (Proto.natOf m) (Proto.natOf n)))
+      (consistencyProofR Hf s.tree.size rd (Proto.natOf m) (Proto.natOf n)))
   | ["leafpath", d, m, n] => match Hex.ofHex d with
     | none => (s, "bad-op")
-    | some data => (s, res Hex.showHex (merkleInclusionLeafPath Hf s data (Proto.natOf m) (Proto.natOf n)))
+    | some data => (s, res Hex.showHex (merkleInclusionLeafPathR Hf s.tree.size rd data (Proto.natOf m) (Proto.natOf n)))
   | ["mroot", n] => match s.store with
     | none => (s, "nil")
-    | some st => (s, res Hex.toHex (merkleRoot Hf st (Proto.natOf n)))
+    | some st => (s, res Hex.toHex (merkleRoot Hf st.reader (Proto.natOf n)))
   | ["bits", n] =>
     let k := Proto.natOf n
-    (s, s!"{countBit k} {highBit k} {lowBit k} {showNats (getSubTreeSize k)} {showNats (getSubTreePos k)} {storedHashNum k}")
+    (s, s!"{countBitGo k} {highBit k} {lowBit k} {showNats (getSubTreeSize k)} {showNats (getSubTreePos k)} {storedHashNum k}")
   | _ => (s, "bad-op")
 
 /-! ### mverify: the three verifiers (C07) -/
@@ -199,6 +208,15 @@ def mledgerStep (s : Option Ledger) (toks : List String) : Option Ledger × Stri
       | .ok l => (some l, "ok")
   | _, none => (s, "bad-op:no-ledger")
   | ["block", _, _, h, txs], some l =>
+    match Hex.ofHex h, parseTxs txs with
+    | some bh, some recs =>
+      match addBlock Hf l bh recs with
+      | .error e => (s, e.name)
+      | .ok l' =>
+        let hashes := recs.map (fun kv => hashLeaf Hf kv.2)
+        (some l', s!"ok {res Hex.toHex (blockRoot Hf l')} {res Hex.toHex (crossRoot Hf hashes)} {hashes.length}")
+    | _, _ => (s, "bad-op")
+  | ["blockraw", _, h, _, txs], some l =>     -- a block built by the vbft proposer code, recorded as bytes
     match Hex.ofHex h, parseTxs txs with
     | some bh, some recs =>
       match addBlock Hf l bh recs with
